@@ -2,6 +2,7 @@
 """Regenerates the seeded-change table of DESIGN.md (between the SEEDED-TABLE markers) from seeded/*/meta.json."""
 import json, os, re
 rows = []
+controls = []
 for d in sorted(os.listdir('/verif/seeded')):
     m = json.load(open(f'/verif/seeded/{d}/meta.json'))
     prop = m['breaks_property']
@@ -14,13 +15,17 @@ for d in sorted(os.listdir('/verif/seeded')):
     else:
         o = "not run"
     oth = ', '.join(f"{r['check']} (`{r['first_signature']}`)" for r in others)
+    if m.get('control'):
+        o = "silent (as it must be)" if own and not own[-1]['detected'] else "FALSE ALARM"
+        controls.append(d)
     rows.append((d, prop, m['change'], m['needs_to_manifest'], o, oth))
 out = ["| seeded change | breaks | what it changes | caught by its own property's quick check | also caught by (quick) |", "|---|---|---|---|---|"]
 for d, prop, ch, need, o, oth in rows:
     out.append(f"| `{d}` | {prop} | {ch}; needs: {need} | {o} | {oth} |")
-n_own = sum(1 for r in rows if r[4].startswith('yes'))
-n_any = sum(1 for r in rows if r[4].startswith('yes') or r[5])
-summary = f"{len(rows)} seeded changes; {n_own} caught by the quick check of the property they were written against, {n_any} caught by at least one quick check."
+real = [r for r in rows if r[0] not in controls]
+n_own = sum(1 for r in real if r[4].startswith('yes'))
+n_any = sum(1 for r in real if r[4].startswith('yes') or r[5])
+summary = f"{len(real)} seeded changes (+{len(controls)} neutral control); {n_own} caught by the quick check of the property they were written against, {n_any} caught by at least one quick check."
 text = summary + "\n\n" + "\n".join(out)
 p = '/verif/DESIGN.md'
 s = open(p).read()
@@ -29,4 +34,4 @@ b = s.index('<!-- SEEDED-TABLE-END -->')
 s = s[:a] + "\n" + text + "\n" + s[b:]
 open(p, 'w').write(s)
 print(summary)
-print("uncaught:", [r[0] for r in rows if not (r[4].startswith('yes') or r[5])])
+print("uncaught:", [r[0] for r in real if not (r[4].startswith('yes') or r[5])])
